@@ -54,27 +54,234 @@ def _lean_str(x):
     return '"' + x.replace('\\', '\\\\').replace('"', '\\"') + '"'
 
 
-def _kernel_statements(src, name):
-    """code lines of `def name(...)` after its signature, as 'indent|statement' (comments, blank lines and
-    string-literal assert messages' whitespace normalised; decorators of the next function excluded)"""
+def _split_top(expr, sep):
+    """split at top-level occurrences of `sep` (outside brackets and string literals)"""
+    out, depth, cur, q, i = [], 0, '', None, 0
+    while i < len(expr):
+        ch = expr[i]
+        if q:
+            cur += ch
+            if ch == '\\' and i + 1 < len(expr):
+                cur += expr[i + 1]
+                i += 1
+            elif ch == q:
+                q = None
+        elif ch in '"\'':
+            q = ch
+            cur += ch
+        elif ch in '([{':
+            depth += 1
+            cur += ch
+        elif ch in ')]}':
+            depth -= 1
+            cur += ch
+        elif depth == 0 and expr.startswith(sep, i):
+            out.append(cur)
+            cur = ''
+            i += len(sep) - 1
+        else:
+            cur += ch
+        i += 1
+    out.append(cur)
+    return out
+
+
+def _strip_comment(line):
+    q = None
+    for i, ch in enumerate(line):
+        if q:
+            if ch == q:
+                q = None
+        elif ch in '"\'':
+            q = ch
+        elif ch == '#':
+            return line[:i]
+    return line
+
+
+def _function_lines(src, name):
+    """(parameter names, [(indent, statement)]) of `def name(...)`: comments, blank lines and the docstring
+    removed, continuation lines joined"""
     lines = src.split('\n')
-    out, inside, in_sig = [], False, False
-    for ln in lines:
-        code = re.sub(r'#.*$', '', ln).rstrip()
-        if not inside:
-            if re.match(r'^def\s+%s\s*\(' % re.escape(name), code):
-                inside, in_sig = True, not code.rstrip().endswith('):')
+    k = next((i for i, ln in enumerate(lines) if re.match(r'^def\s+%s\s*\(' % re.escape(name), ln)), None)
+    if k is None:
+        return None, []
+    sig = ''
+    while True:
+        sig += ' ' + _strip_comment(lines[k]).strip()
+        k += 1
+        if sig.rstrip().endswith(':') and sig.count('(') == sig.count(')'):
+            break
+        if k >= len(lines):
+            return None, []
+    inner = sig[sig.index('(') + 1: sig.rindex(')')]
+    params = [re.split(r'\s+', x.strip().split('=')[0].strip())[-1] for x in _split_top(inner, ',') if x.strip()]
+    body, cur, ind, doc = [], '', None, None
+    for ln in lines[k:]:
+        raw = ln
+        if doc:                                   # inside a docstring
+            if doc in raw:
+                doc = None
             continue
-        if in_sig:
-            in_sig = not code.rstrip().endswith('):')
-            continue
-        if code and not code.startswith(' '):
-            break                       # next top-level statement / decorator
+        code = _strip_comment(raw).rstrip()
         if not code.strip():
             continue
-        indent = len(code) - len(code.lstrip(' '))
-        out.append('%d|%s' % (indent, re.sub(r'\s+', ' ', code.strip())))
-    return out
+        if cur == '' and not code.startswith(' '):
+            break                                 # next top-level statement / decorator
+        if cur == '':
+            st = code.strip()
+            m = re.match(r'^[rbuf]*("""|\'\'\')', st)
+            if m and not body:                    # docstring of the function
+                if st.count(m.group(1)) < 2:
+                    doc = m.group(1)
+                continue
+            ind = len(code) - len(code.lstrip(' '))
+            cur = st
+        else:
+            cur += ' ' + code.strip()
+        if sum(cur.count(c) for c in '([{') <= sum(cur.count(c) for c in ')]}'):
+            body.append((ind, re.sub(r'\s+', ' ', cur)))
+            cur = ''
+    return params, body
+
+
+_IDENT = r'[A-Za-z_]\w*'
+
+
+def _subst(expr, env):
+    """replace identifiers by their aliases (not attribute names after a dot, not keyword-argument names)"""
+    def rep(m):
+        pre = expr[max(0, m.start() - 1):m.start()]
+        post = expr[m.end():m.end() + 1]
+        if pre == '.' or (post == '=' and expr[m.end():m.end() + 2] != '=='):
+            return m.group(0)
+        return env.get(m.group(0), m.group(0))
+    prev = None
+    for _ in range(6):                            # aliases of aliases
+        if prev == expr:
+            break
+        prev = expr
+        expr = re.sub(_IDENT, rep, expr)
+    return expr.replace(' ', '')
+
+
+def normalise_kernel(src, name):
+    """a normalised description of a counting kernel of libinfo.pyx:
+    guards  - the set of asserted expressions (messages dropped, conjunctions split, conditions as `c=>e`)
+    alloc   - [allocator, shape, dtype] of the output array
+    loops   - [(kind, bound)] outermost first; `v = 0; while v < n: ...; v = v + 1` is a `range` loop
+    writes  - ['depth|OUT[index]op'] with the loop variables named L0, L1, ... by nesting order, the array
+              parameters A, B, the state-count parameters NA, NB, scalar temporaries inlined
+    ret     - what is returned;  extras - every statement that was not recognised (must be empty)
+    Never raises: anything unexpected lands in `extras`."""
+    res = {'guards': [], 'alloc': [], 'loops': [], 'writes': [], 'ret': '', 'extras': []}
+    try:
+        params, body = _function_lines(src, name)
+        if params is None or len(params) != 4:
+            res['extras'].append('unrecognised signature of %s' % name)
+            return res
+        env = dict(zip(params, ['A', 'B', 'NA', 'NB']))
+        pending_zero = set()       # names set to 0 (candidate counting-loop variables)
+        stack = []                 # open blocks: (indent of their body's parent, kind, var-or-cond)
+        out_name = [None]
+
+        def close_to(indent):
+            while stack and stack[-1]['indent'] >= indent:
+                blk = stack.pop()
+                if blk['kind'] == 'while' and not blk['incremented']:
+                    res['extras'].append('unrecognised while loop over %s (no final increment)' % blk['var'])
+
+        for indent, st in body:
+            close_to(indent)
+            depth = sum(1 for b in stack if b['kind'] in ('for', 'while'))
+            cond = '&'.join(b['cond'] for b in stack if b['kind'] == 'if')
+            m = re.match(r'^assert (.*)$', st)
+            if m:
+                parts = _split_top(m.group(1), ',')
+                expr = parts[0] if len(parts) > 1 and re.match(r'^\s*[rbuf]*["\']', parts[-1]) else m.group(1)
+                for g in _split_top(expr, ' and '):
+                    g = _subst(g.strip(), env)
+                    res['guards'].append((cond + '=>' + g) if cond else g)
+                continue
+            m = re.match(r'^if (.*):$', st)
+            if m:
+                stack.append({'indent': indent, 'kind': 'if', 'cond': _subst(m.group(1), env)})
+                continue
+            m = re.match(r'^for (%s) in (prange|range)\((.*)\):$' % _IDENT, st)
+            if m:
+                args = [x.strip() for x in _split_top(m.group(3), ',')]
+                kind = m.group(2)
+                if kind == 'prange' and sorted(a.replace(' ', '') for a in args[1:]) != ['nogil=True']:
+                    kind = 'prange(' + ','.join(a.replace(' ', '') for a in args[1:]) + ')'
+                elif kind == 'range' and len(args) != 1:
+                    kind = 'range/%d' % len(args)
+                res['loops'].append((kind, _subst(args[0], env)))
+                env[m.group(1)] = 'L%d' % depth
+                stack.append({'indent': indent, 'kind': 'for', 'var': m.group(1)})
+                continue
+            m = re.match(r'^while (%s) < (.*):$' % _IDENT, st)
+            if m and m.group(1) in pending_zero:
+                pending_zero.discard(m.group(1))
+                res['loops'].append(('range', _subst(m.group(2), env)))
+                env[m.group(1)] = 'L%d' % depth
+                stack.append({'indent': indent, 'kind': 'while', 'var': m.group(1), 'incremented': False})
+                continue
+            flat_st = st
+            while re.search(r'\[[^\[\]]*\]|\([^()]*\)', flat_st):
+                flat_st = re.sub(r'\[[^\[\]]*\]|\([^()]*\)', '', flat_st)
+            if st.startswith('cdef ') and '=' not in flat_st:
+                continue                              # declaration without a value: nothing happens
+            m = re.match(r'^(?:cdef .*?\s)?(%s) = (.*)$' % _IDENT, st)
+            if m:
+                nm, rhs = m.group(1), m.group(2)
+                a = re.match(r'^(?:np|numpy)\.(\w+)\((.*)\)$', rhs)
+                if a and a.group(1) in ('zeros', 'empty', 'ones', 'full', 'zeros_like', 'empty_like'):
+                    args = [x.strip() for x in _split_top(a.group(2), ',')]
+                    dt = [x.split('=', 1)[1].strip() for x in args[1:] if x.replace(' ', '').startswith('dtype=')]
+                    res['alloc'] = [a.group(1), _subst(args[0], env), (dt[0] if dt else 'default').replace(' ', '')]
+                    if len(args) - 1 != len(dt):
+                        res['alloc'].append('extra-args:' + ','.join(args[1:]).replace(' ', ''))
+                    out_name[0] = nm
+                    env[nm] = 'OUT'
+                    continue
+                wh = next((b for b in reversed(stack) if b['kind'] == 'while'), None)
+                if wh and nm == wh['var'] and rhs.replace(' ', '') in (nm + '+1', '1+' + nm):
+                    wh['incremented'] = True          # must be the last statement of the body: checked below
+                    wh['inc_seen_at'] = len(res['writes']) + len(res['extras'])
+                    continue
+                if rhs.strip() == '0' and depth >= 0 and nm not in env:
+                    pending_zero.add(nm)
+                    continue
+                flat = rhs
+                while re.search(r'\[[^\[\]]*\]|\([^()]*\)', flat):
+                    flat = re.sub(r'\[[^\[\]]*\]|\([^()]*\)', '', flat)
+                env[nm] = '(' + _subst(rhs, env) + ')' if re.search(r'[-+*/%<>=]| (and|or|not|if) ', flat) \
+                    else _subst(rhs, env)
+                continue
+            m = re.match(r'^(%s) \+= 1$' % _IDENT, st)
+            wh = next((b for b in reversed(stack) if b['kind'] == 'while'), None)
+            if m and wh and m.group(1) == wh['var']:
+                wh['incremented'] = True
+                continue
+            m = re.match(r'^(%s)\[(.*)\] ?(\+=|-=|\*=|=) ?(.*)$' % _IDENT, st)
+            if m:
+                if wh and wh.get('incremented'):
+                    res['extras'].append('statement after the increment of a counting loop: ' + st)
+                res['writes'].append('%d|%s[%s]%s%s' % (depth, _subst(m.group(1), env), _subst(m.group(2), env),
+                                                        m.group(3), _subst(m.group(4), env)))
+                continue
+            m = re.match(r'^return (.*)$', st)
+            if m:
+                res['ret'] = _subst(m.group(1), env)
+                continue
+            res['extras'].append('unrecognised: ' + st)
+        close_to(0)
+        for z in sorted(pending_zero):
+            res['extras'].append('unrecognised: %s = 0' % z)
+        res['guards'] = sorted(set(res['guards']))
+    except Exception as e:  # noqa  (the translator never raises: the obligation then fails readably)
+        res['extras'].append('unrecognised: translator error %s: %s' % (type(e).__name__, str(e)[:80]))
+    return res
 
 
 def _fused(src):
@@ -84,43 +291,75 @@ def _fused(src):
     return res
 
 
+def _lean_list(xs):
+    return '[' + ', '.join(_lean_str(x) for x in xs) + ']'
+
+
 def translate(repo_dir, gen_dir):
-    path = os.path.join(repo_dir, 'enspara', 'info_theory', 'libinfo.pyx')
-    with open(path) as f:
-        src = f.read()
     import hashlib
-    sha = hashlib.sha256(src.encode()).hexdigest()
-    bodies = {k: _kernel_statements(src, k) for k in ('matrix_bincount2d', 'bincount2d')}
-    fused = _fused(src)
+    path = os.path.join(repo_dir, 'enspara', 'info_theory', 'libinfo.pyx')
+    try:
+        with open(path) as f:
+            src = f.read()
+    except OSError as e:
+        src = ''
+        note = 'unrecognised: cannot read libinfo.pyx: %s' % e
+    else:
+        note = None
+    kernels = {k: normalise_kernel(src, k) for k in ('matrix_bincount2d', 'bincount2d')}
+    if note:
+        for k in kernels.values():
+            k['extras'].append(note)
+    try:
+        fused = _fused(src)
+    except Exception:  # noqa
+        fused = {'unrecognised': []}
     L = ['/-! GENERATED by harness/props/c18.py `translate` from enspara/info_theory/libinfo.pyx -- do not edit;',
-         'regenerated on every run.  Re-checked by `C18.kernel_source_as_modelled` (a `decide` over these lists):',
-         'the loop nest, the indices of the `+= 1` and the asserts of the source are the ones `Model.Info` mirrors. -/',
+         'regenerated on every run.  A NORMALISED description of the two counting kernels (comments, docstrings,',
+         'assert messages and scalar declarations dropped; locals renamed canonically: array parameters `A`, `B`,',
+         'state counts `NA`, `NB`, output array `OUT`, loop variables `L0`, `L1`, … by nesting depth; scalar',
+         'temporaries and hoisted bounds inlined; `v = 0; while v < n: …; v = v + 1` is a `range` loop).',
+         'Re-checked by `C18.kernel_source_as_modelled` (a `decide`). -/',
          'namespace Ens.Info.Gen', '',
-         'def sourceSha256 : String := %s' % _lean_str(sha), '',
+         'structure KernelNorm where',
+         '  guards : List String',
+         '  alloc : List String',
+         '  loops : List (String × String)',
+         '  writes : List String',
+         '  ret : String',
+         '  extras : List String', '',
          '/-- `ctypedef fused` blocks: name, member element types -/',
          'def fused : List (String × List String) :=',
-         '  [' + ', '.join('(%s, [%s])' % (_lean_str(k), ', '.join(_lean_str(x) for x in v))
-                          for k, v in sorted(fused.items())) + ']', '']
+         '  [' + ', '.join('(%s, %s)' % (_lean_str(k), _lean_list(v)) for k, v in sorted(fused.items())) + ']', '']
     for k in ('matrix_bincount2d', 'bincount2d'):
-        nm = 'matrixBincount2dBody' if k == 'matrix_bincount2d' else 'bincount2dBody'
-        L.append('/-- statements of `%s` as `indent|statement`, in source order -/' % k)
-        L.append('def %s : List String :=' % nm)
-        L.append('  [' + ',\n   '.join(_lean_str(x) for x in bodies[k]) + ']')
-        L.append('')
+        nm = 'matrixBincount2d' if k == 'matrix_bincount2d' else 'bincount2d'
+        r = kernels[k]
+        L += ['/-- `%s` -/' % k, 'def %s : KernelNorm where' % nm,
+              '  guards := ' + _lean_list(r['guards']),
+              '  alloc := ' + _lean_list(r['alloc']),
+              '  loops := [' + ', '.join('(%s, %s)' % (_lean_str(a), _lean_str(b)) for a, b in r['loops']) + ']',
+              '  writes := ' + _lean_list(r['writes']),
+              '  ret := ' + _lean_str(r['ret']),
+              '  extras := ' + _lean_list(r['extras']), '']
     L.append('end Ens.Info.Gen')
     text = '\n'.join(L) + '\n'
-    os.makedirs(gen_dir, exist_ok=True)
     out = os.path.join(gen_dir, 'InfoKernel.lean')
-    old = None
-    if os.path.exists(out):
-        with open(out) as f:
-            old = f.read()
-    if old != text:
-        with open(out, 'w') as f:
-            f.write(text)
-    return {'summary': 'libinfo.pyx sha256 %s: fused %s; %d + %d kernel statements' % (
-        sha[:12], {k: len(v) for k, v in fused.items()}, len(bodies['matrix_bincount2d']), len(bodies['bincount2d'])),
-        'file': 'lean/Model/Generated/InfoKernel.lean', 'source_sha256': sha}
+    try:
+        os.makedirs(gen_dir, exist_ok=True)
+        old = None
+        if os.path.exists(out):
+            with open(out) as f:
+                old = f.read()
+        if old != text:
+            with open(out, 'w') as f:
+                f.write(text)
+    except OSError:
+        pass
+    return {'summary': 'libinfo.pyx sha256 %s: fused %s; loops %s / %s; unrecognised statements %d' % (
+        hashlib.sha256(src.encode()).hexdigest()[:12], {k: len(v) for k, v in fused.items()},
+        kernels['matrix_bincount2d']['loops'], kernels['bincount2d']['loops'],
+        sum(len(k['extras']) for k in kernels.values())),
+        'file': 'lean/Model/Generated/InfoKernel.lean', 'kernels': kernels}
 
 
 # --------------------------------------------------------------------------------------
